@@ -1,8 +1,104 @@
 //! Verification hook (compiled only with `--cfg quinn_rs_quinn_verif`).
+//!
+//! Components: `range_set` (`range_set/btree_range_set.rs`) and `array_range_set`
+//! (`range_set/array_range_set.rs`), models `coq/Model/RangeSet.v`, `coq/Model/ArrayRangeSet.v`.
+//! Only the methods compiled outside `cfg(test)` are reachable.
 #![allow(missing_docs, dead_code, unused_imports, unreachable_pub, clippy::all)]
 use super::{Ops, Outs};
+use crate::range_set::{ArrayRangeSet, RangeSet};
 
-/// Interpret `ops` for component `comp`; `None` if `comp` is not served by this module.
-pub(crate) fn run(_comp: &str, _ops: &Ops) -> Option<Outs> {
-    None
+fn ranges<I: Iterator<Item = std::ops::Range<u64>>>(it: I) -> Vec<i128> {
+    let mut o = Vec::new();
+    for r in it {
+        o.push(r.start as i128);
+        o.push(r.end as i128);
+    }
+    o
+}
+
+fn opt_range(r: Option<std::ops::Range<u64>>) -> Vec<i128> {
+    match r {
+        Some(r) => vec![1, r.start as i128, r.end as i128],
+        None => vec![0],
+    }
+}
+
+fn opt(r: Option<u64>) -> Vec<i128> {
+    match r {
+        Some(x) => vec![1, x as i128],
+        None => vec![0],
+    }
+}
+
+/// range_set ops (BTree `RangeSet`, one `new()` per case):
+///   [0, start, end]  insert(start..end)  -> [bool]
+///   [1, start, end]  replace(start..end), iterator drained then dropped -> [s0, e0, s1, e1, ...]
+///   [2, start, end, k]  replace(start..end), only k items pulled, then dropped -> [s0, e0, ...]
+///   [3]  pop_min  -> [0] | [1, start, end]
+///   [4]  peek_min -> [0] | [1, start, end]
+///   [5]  min      -> [0] | [1, x]
+///   [6]  is_empty -> [bool]
+///   [7]  iter     -> [s0, e0, s1, e1, ...]
+fn range_set(ops: &Ops) -> Outs {
+    let mut s = RangeSet::new();
+    ops.iter()
+        .map(|op| match op[0] {
+            0 => vec![s.insert(op[1] as u64..op[2] as u64) as i128],
+            1 => ranges(s.replace(op[1] as u64..op[2] as u64)),
+            2 => {
+                let mut it = s.replace(op[1] as u64..op[2] as u64);
+                let mut o = Vec::new();
+                for _ in 0..op[3] {
+                    match it.next() {
+                        Some(r) => {
+                            o.push(r.start as i128);
+                            o.push(r.end as i128);
+                        }
+                        None => break,
+                    }
+                }
+                o
+            }
+            3 => opt_range(s.pop_min()),
+            4 => opt_range(s.peek_min()),
+            5 => opt(s.min()),
+            6 => vec![s.is_empty() as i128],
+            7 => ranges(s.iter()),
+            _ => vec![-1],
+        })
+        .collect()
+}
+
+/// array_range_set ops (`ArrayRangeSet`, one `new()` per case):
+///   [0, start, end]  insert(start..end)  -> [bool]
+///   [1, x]           insert_one(x)       -> [bool]
+///   [2, start, end]  remove(start..end)  -> [bool]
+///   [3]  pop_min  -> [0] | [1, start, end]
+///   [4]  max      -> [0] | [1, x]
+///   [5]  len      -> [n]
+///   [6]  is_empty -> [bool]
+///   [7]  iter     -> [s0, e0, s1, e1, ...]
+fn array_range_set(ops: &Ops) -> Outs {
+    let mut s = ArrayRangeSet::new();
+    ops.iter()
+        .map(|op| match op[0] {
+            0 => vec![s.insert(op[1] as u64..op[2] as u64) as i128],
+            1 => vec![s.insert_one(op[1] as u64) as i128],
+            2 => vec![s.remove(op[1] as u64..op[2] as u64) as i128],
+            3 => opt_range(s.pop_min()),
+            4 => opt(s.max()),
+            5 => vec![s.len() as i128],
+            6 => vec![s.is_empty() as i128],
+            7 => ranges(s.iter()),
+            _ => vec![-1],
+        })
+        .collect()
+}
+
+pub(crate) fn run(comp: &str, ops: &Ops) -> Option<Outs> {
+    match comp {
+        "range_set" => Some(range_set(ops)),
+        "array_range_set" => Some(array_range_set(ops)),
+        _ => None,
+    }
 }
